@@ -273,7 +273,7 @@ func tryHardToExplainUnexpectedDigests(
 		go func() {
 			_, _, err := unhash.FindPieceOfBinaryForDigest(
 				ctx,
-				unhash.FindDigestSourceAllDigests(ctx, foundCh, digests...),
+				findDigestSourceAllDigests(ctx, foundCh, digests...),
 				fwImage.Content,
 				h.New,
 				unhashSettings,
@@ -322,7 +322,7 @@ func tryHardToExplainUnexpectedDigests(
 		go func() {
 			_, _, err := unhash.FindPieceOfBinaryForDigest(
 				ctx,
-				unhash.FindDigestSourceAllDigests(ctx, foundCh, followupDigests...),
+				findDigestSourceAllDigests(ctx, foundCh, followupDigests...),
 				fwImage.Content,
 				h.New,
 				unhashSettings,
@@ -337,6 +337,36 @@ func tryHardToExplainUnexpectedDigests(
 			logEntryExplainer := followupLogEntryExplainers[found.DigestIndex]
 			logEntryExplainer.AddMeasurement(fwImage, digestAsTrustChain{}, dataconverters.NewHasher(h.New()), nil, ranges)
 		}
+	}
+}
+
+// findDigestSourceAllDigests is unhash.FindDigestSourceAllDigests made safe
+// for the concurrent calls from the workers of unhash.FindPieceOfBinaryForDigest:
+// the original function removes a found digest from its list without any locking.
+func findDigestSourceAllDigests(
+	ctx context.Context,
+	foundCh chan<- unhash.FoundDigestSourceResult,
+	digests ...unhash.Digest,
+) unhash.BinaryPieceCheckFunc {
+	// fn gets its own copy of the list: it shifts the list's elements when it removes one.
+	fn := unhash.FindDigestSourceAllDigests(ctx, foundCh, append([]unhash.Digest(nil), digests...)...)
+	var locker sync.Mutex
+	return func(ctx context.Context, hashValue unhash.Digest, startPos, endPos uint) bool {
+		// fn does nothing on a value which is not in the list, so
+		// the lock is taken only on a (rare) match.
+		isInList := false
+		for _, digest := range digests {
+			if bytes.Equal(hashValue, digest) {
+				isInList = true
+				break
+			}
+		}
+		if !isInList {
+			return false
+		}
+		locker.Lock()
+		defer locker.Unlock()
+		return fn(ctx, hashValue, startPos, endPos)
 	}
 }
 
